@@ -248,6 +248,21 @@ func zzPrepare(script, varspec string) *zzEnv {
 		}
 		bal[acc] = ab
 	}
+	// "_alias=b:a": account b starts with exactly the balances of a - and a store may hand out
+	// one and the same number object for both (interned amounts)
+	if al := spec["_alias"]; al != "" {
+		ba := strings.Split(al, ":")
+		for _, as := range e.assets {
+			if x, ok := e.start[zzKey(ba[1], as)]; ok {
+				e.start[zzKey(ba[0], as)] = x
+				e.rem[zzKey(ba[0], as)] = new(big.Int).Set(x)
+				if bal[ba[0]] == nil {
+					bal[ba[0]] = AccountBalance{}
+				}
+				bal[ba[0]][as] = new(big.Int).Set(x)
+			}
+		}
+	}
 	e.store = StaticStore{Balances: bal, Meta: AccountsMetadata{}}
 	return e
 }
